@@ -3,6 +3,7 @@ package main
 // C16 - any call sequence is safe (closed state, idempotent Close, constructors mirror std).
 
 import (
+	"strings"
 	"go/constant"
 	"go/token"
 	"go/types"
@@ -91,9 +92,23 @@ func sameLocationLoad(fn *ssa.Function, a, b ssa.Value) bool {
 			return r2 == ra && s2 == sa
 		}
 		if c, ok := x.(ssa.CallInstruction); ok {
-			// a call that receives the root may write it
-			for _, arg := range c.Common().Args {
+			// a call that receives the root may write it; a repository callee is judged by its effect summary
+			for i, arg := range c.Common().Args {
 				if arg == ra {
+					if g := c.Common().StaticCallee(); g != nil && g.Blocks != nil && activeProg != nil && activeProg.InRepo(g) {
+						writes := false
+						for _, w := range activeProg.Effects().ParamWrites(g, i) {
+							if w == sa || strings.HasPrefix(sa, w+".") || strings.HasPrefix(w, sa+".") || w == "*" {
+								writes = true
+							}
+						}
+						if _, unk := activeProg.Effects().Unknown[g]; unk {
+							writes = true
+						}
+						if !writes {
+							continue
+						}
+					}
 					return true
 				}
 			}
@@ -306,13 +321,9 @@ func isBoolType(t types.Type) bool {
 }
 
 func ruleR16_2(p *Program, r *Report) {
-	r.Expect("R16.2", 2)
+	r.Expect("R16.2", 3)
 	var targets []*TypeRole
 	for _, tr := range p.WriterTypes() {
-		if tr.Rel == "compress/zlib" {
-			r.OK("R16.2", "(*zlib.Writer).Close|not-required", p.Pos(tr.Ops["Close"].Pos()), "zlib.Writer.Close: idempotence not required - compress/zlib's own second Close re-emits the Adler-32 trailer and C16's oracle is the standard library")
-			continue
-		}
 		targets = append(targets, tr)
 	}
 	for _, tr := range targets {
